@@ -53,7 +53,10 @@ func c08Alphabet(thorough bool) []string {
 }
 
 func c08Drivers(thorough bool) []*engine.HDriver {
-	return []*engine.HDriver{regDriver("subscriptions", c08Alphabet(thorough), true, false, nil)}
+	// a local server feature of type Generic fits every requested type; the client has to fit the REQUESTED type
+	gen := []string{"sub:A:e1f1:L1gen:lc:d", "sub:B:e1f3:L1gen:ms:d", "sub:A:e1f3:L1gen:lc:d", "sub:A:e1f1:L1gen:gen:d", "sub:B:e1f4:L1gen:lc:d",
+		"unsub:A:e1f1:L1gen:d", "unsub:B:e1f3:L1gen:d", "sub:A:e1f1:L1lc:lc:d", "disc:A", "reconn:A"}
+	return []*engine.HDriver{regDriver("subscriptions", c08Alphabet(thorough), true, false, nil), regDriver("subscriptions-generic-server-feature", gen, true, false, nil)}
 }
 
 // c08Scenarios: the grant decision ("not subscribed already"), the removal of exactly the addressed
